@@ -45,6 +45,7 @@ structure Module where
   codeEntry : Nat
   entryAddr : Nat
   params : List Param
+  fnParams : List (Nat × Nat) := []   -- (function entry address, parameter count) as the emitter reported them (hook)
   deriving Repr, Inhabited
 
 inductive Stop where
